@@ -450,7 +450,7 @@ def families(pid, tier, rng):
             cs += fam_c34(shapes(["2cycle"]), NODES3, (2,), ["one"], 0, [NODES3])
             cs += [c for c in fam_c34(shapes(["chain"]), NODES3, (1,), ["one"], 1, [NODES3]) if c["pan"] == ["b"]]
             mc.append(("c34", NODES3, cs, True))
-            extra = rng.sample(all3, 12)
+            extra = rng.sample(all3, 8)
             ro.append(("c34all", NODES3, fam_c34(canon + extra, NODES3, (1, 2, 3), ["one", "single"], 1, all_roots(NODES3)[:2])))
         else:
             sparse = [g for g in all3 if nedges(g) <= 4]
@@ -522,7 +522,7 @@ def run(pid, tier, replay=None):
         exported.append((name, nodes, export_cases(wd, name, nodes, cases)))
     # 2. direction A (+ recording for B): every exported case on the real executor
     reps = 3 if thorough else 2
-    trace_budget = 60000 if thorough else 5000     # events validated by TLC (about 1000 / s)
+    trace_budget = 50000 if thorough else 3500     # events validated by TLC (about 1000 / s)
     tfiles = []
     for name, nodes, cases in exported:
         tp = drive(wd, binary, name, cases, reps, verdict, acc)
